@@ -16,7 +16,7 @@ RULE = ('every validator set of <= 3 members with weights in 1..3 (quick: a seed
         '(thorough 4, sampled) over {valid_i, invalid_i, other-block_i, foreign, foreign-invalid}; plus weight patterns hitting exactly 2/3 '
         'and random larger sets (up to 12 validators); distinct = distinct (weights, item sequence)')
 ASSUMPTIONS = ['signature items are labelled by construction with PyNaCl (valid = signed by that validator over this block id; invalid = one '
-               'flipped bit; other = signed over a different block id; long = a signature over a longer message ending in this block\'s payload, followed by the extra bytes; short / padded = 63 / 65 bytes; foreign = key outside the set; alias = a valid signature of a member listed under the ADNL address of that member instead of its node id: an unknown signer); the signature list and the validator set are passed as list / tuple / one-shot iterator / generator / dict view', 'validator descriptors are built directly or taken from ValidatorDescr.deserialize (weights up to 2^64 - 1)',
+               'flipped bit; other = signed over a different block id; approve = signed by the member over another message about this block (other constructor prefix); long = a signature over a longer message ending in this block\'s payload, followed by the extra bytes; short / padded = 63 / 65 bytes; foreign = key outside the set; alias = a valid signature of a member listed under the ADNL address of that member instead of its node id: an unknown signer); the signature list and the validator set are passed as list / tuple / one-shot iterator / generator / dict view', 'validator descriptors are built directly or taken from ValidatorDescr.deserialize (weights up to 2^64 - 1)',
                'a set in which a signer repeats but whose distinct signers already exceed 2/3 may be accepted or rejected (the property allows '
                'either reading of "counted more than once")', 'weights below 2^20 use TLC integers; 64-bit weights are limb vectors compared by TonNat (lemmas in MC_Nat)']
 MAGIC_ID = b'\xc6\xb4\x13\x48'
@@ -53,6 +53,10 @@ class World:
     def item(self, s, k):
         key = self.keys[s - 1] if s else self.foreign
         msg = self.tosign if k != 'other' else self.tosign_other
+        if k == 'approve':
+            # a genuine member's signature over ANOTHER message about the same block (the ton.blockIdApprove constructor, or any
+            # other prefix): not a signature over this block's identifier
+            msg = self.rng.choice([b'IJ\xd4-', b'\x2d\xd4\x4a\x49', b'', b'pn\x0b\xc4']) + self.blk.root_hash + self.blk.file_hash
         sig = key.sign(msg).signature
         if k == 'invalid':
             b = bytearray(sig)
@@ -157,7 +161,7 @@ def generate(tier, seed, ctx):
             items.insert(rng.randrange(len(items) + 1), (0, 'valid'))                          # foreign
         elif mode < 0.5 and items:
             j = rng.randrange(len(items))
-            items[j] = (items[j][0], rng.choice(['invalid', 'other', 'long', 'short', 'padded', 'long']))
+            items[j] = (items[j][0], rng.choice(['invalid', 'other', 'long', 'short', 'padded', 'long', 'approve', 'approve']))
         out.append(w.run(weights, items, layout=rng.random() < 0.05))
     # main-net scale weights (total around 2^60) within a few units of exactly two thirds: 3 * signed - 2 * total = target
     for _ in range(40 if q else 800):
@@ -188,6 +192,16 @@ def generate(tier, seed, ctx):
         for k in ('long', 'short', 'padded'):
             out.append(w.run(weights, [(s, 'valid') for s in good] + [(bad, k)]))
             out.append(w.run(weights, [(bad, k)] + [(s, 'valid') for s in good], parsed=True))
+    # sets made only of approve-style signatures, and a minority topped up by one
+    for weights, good, bad in (([1, 1, 1], [], [1, 2, 3]), ([1, 1, 1], [1, 2], [3]), ([2, 1], [], [1, 2]), ([5], [], [1]), ([3, 3, 3, 1], [1, 2], [3])):
+        out.append(w.run(weights, [(s_, 'valid') for s_ in good] + [(s_, 'approve') for s_ in bad]))
+        out.append(w.run(weights, [(s_, 'approve') for s_ in bad] + [(s_, 'valid') for s_ in good], parsed=True))
+    # total weights beyond 2^64 (each weight a legal uint64): unanimous and near-unanimous sets
+    for weights in ([1 << 63] * 3, [(1 << 64) - 1, (1 << 64) - 1, 1], [(1 << 64) - 1] * 6, [1 << 63, 1 << 63]):
+        n = len(weights)
+        out.append(w.run(weights, [(j + 1, 'valid') for j in range(n)], parsed=True))
+        out.append(w.run(weights, [(j + 1, 'valid') for j in range(n)][::-1]))
+        out.append(w.run(weights, [(j + 1, 'valid') for j in range(n - 1)], parsed=True))
     # a member's signature listed under its ADNL address (descriptors of the validator_addr#73 form carry one): every small shape,
     # alone and next to the same member's properly listed signature
     for weights in ([2, 1, 1], [1, 2], [1, 3, 1], [5, 5]):
